@@ -493,3 +493,70 @@ def run_placeholder_ordinal(prog, tier, repo):
                                       f'the exhaustiveness matrix / lowering works on the wrong column')
     res.analysed['placeholder_uses'] = n
     return [res]
+
+
+# ---------------------------------------------------------------------------------------------------------------------
+# PRIVATE-GUARD (C06): "a use of a private member or class from another module is rejected". In the typing context the
+# members of a class are looked up by name in the global signature; the class-level visibility test - the `private` flag of
+# the class's interface entry compared with the current module - must have succeeded on every path that reaches such a
+# member lookup, for static members and for methods alike.
+
+def run_private_guard(prog, tier, repo):
+    from ..cfg import cfg_of, single_def
+    from ..core import field_reads
+    res = RuleResult('PRIVATE-GUARD', 'C06: every by-name member lookup of the typing context is reached only after the class-level '
+                     'visibility test (`private` flag vs. current module) succeeded')
+    n = 0
+    for b in sorted(prog.bodies.values(), key=lambda x: x.name):
+        if b.crate != 'samlang_checker' or '::typing_context::' not in b.name + '::' or b.kind == 'closure' or '::tests' in b.name:
+            continue
+        lookups = [(bi, bl.term) for bi, bl in enumerate(b.blocks) if not bl.cleanup and bl.term[0] == 'call'
+                   and (callee(bl.term)[1] or '').endswith(('global_signature::resolve_function_signature',
+                                                             'global_signature::resolve_method_signature'))]
+        if not lookups:
+            continue
+        cfg = cfg_of(b)
+        # visibility tests: Option::filter with a closure that reads the `private` field, then `?`
+        pass_edges = []
+        for bi, bl in enumerate(b.blocks):
+            t = bl.term
+            if bl.cleanup or t[0] != 'call' or not (callee(t)[1] or '').endswith('Option::<T>::filter') or len(t[3]) < 2:
+                continue
+            o = t[3][1]
+            sd = single_def(b, o[1].local) if o[0] in ('c', 'm') else None
+            if not (sd and sd[1] != 'term' and sd[2][0] == 'agg' and sd[2][1][0] == 'closure'):
+                continue
+            cb = prog.bodies.get(sd[2][1][1])
+            if cb is None or not any(prog.adts.get(k[0]) is not None and prog.adts[k[0]].variants[k[1]].fields[k[2]].name == 'private'
+                                     for k in field_reads(cb)):
+                continue
+            # follow the result to the `?` switch: Continue edge
+            cur = t[4].local if t[4] is not None and not t[4].proj else None
+            for _ in range(4):
+                nxt = None
+                for bj, bl2 in enumerate(b.blocks):
+                    t2 = bl2.term
+                    if bl2.cleanup:
+                        continue
+                    if t2[0] == 'call' and (callee(t2)[1] or '').endswith('Try>::branch') and t2[3] and t2[3][0][0] in ('c', 'm') \
+                            and t2[3][0][1].local == cur and t2[4] is not None:
+                        nxt = t2[4].local
+                    if t2[0] == 'switch' and t2[1][0] in ('c', 'm'):
+                        sd2 = single_def(b, t2[1][1].local)
+                        if sd2 and sd2[1] != 'term' and sd2[2][0] == 'disc' and not sd2[2][1].proj and sd2[2][1].local == cur:
+                            pass_edges += [(bj, tg) for v, tg in t2[2] if v == 0]
+                if nxt is None:
+                    break
+                cur = nxt
+        for bi, t in lookups:
+            n += 1
+            short = (callee(t)[1] or '').split('::')[-1]
+            key = f'lookup:{b.name}:{short}'
+            if pass_edges and cfg.edges_dominate(pass_edges, bi):
+                res.ok(key, b.loc(t[7]), 'dominated by the successful class-level visibility test')
+            else:
+                res.violation(key, b.loc(t[7]), f'{b.name}: `{short}` is reachable without the class-level visibility test having '
+                              f'succeeded: members of a `private` class of another module resolve (e.g. on a value obtained through a '
+                              f'public function), so a use of a private class from another module is accepted')
+    res.floor('by-name member lookups in the typing context', n, 2)
+    return [res]
